@@ -2,6 +2,9 @@ import TxdbusModel.Proofs.Msg.Main
 import TxdbusModel.Proofs.Msg.WithWire
 import TxdbusModel.Msg.PreFix
 import TxdbusModel.Gen.Message
+import TxdbusModel.Proofs.Msg.GeneralMsg
+import TxdbusModel.Proofs.Msg.GeneralForeign
+import TxdbusModel.Proofs.Msg.Forward
 /-!
 # C03 - Every constructible message serialises well-formed and parses back intact
 
@@ -691,6 +694,370 @@ example : ∃ st' m m', construct Gen.Message.tables (wireCodec 5) (fun _ => fal
   subst hi
   exact ⟨st', m, m', h, p1, by rw [p7]; rfl, p11⟩
 
+
+/-! ## Extension 2026-09-30: the GENERAL wire codec on the header signature (what `_marshal` / `parseMessage` call)
+
+`Msg/HeaderCode.lean` (the codec the theorems above are about) is `marshal.marshal` / `marshal.unmarshal` specialised
+by hand to `'yyyyuua(yv)'`.  The real code calls the general functions; C01/C02's code model of those is Wire/Code.lean.
+The two theorems below close the seam: on the header signature the general model IS the specialised one.  The fragment,
+precisely:
+  * decoder - every byte string on which the specialised decoder does not answer `PyErr.other`; it answers `other`
+    exactly when it reaches a header field whose variant signature starts with a type code of `dbus_types` and is not
+    exactly ONE BASIC type code (`unmarshalVariant`, Msg/HeaderCode.lean: a container, a variant, or several types) -
+    then the general decoder goes on decoding that field (or fails in it), i.e. LEAVES the fragment; with any other
+    exception the general decoder FAILS with the same exception;
+  * encoder - every list of header values on which the specialised encoder does not answer `PyErr.other`; it answers
+    `other` exactly when it reaches a header value whose inferred signature (`sigFromPy`) is not one of `y u s o g`
+    (one character) after everything before it was marshalled; `headerCode_encode_fragment`: header values of the
+    classes `_marshal` produces (str, ObjectPath, Signature, Byte, UInt32) never leave it.
+Step budget of the general model: `fuel + 4` for any `fuel` (array, struct, variant, basic value: four nested per-type
+calls), shown sufficient by the theorems themselves (the result does not depend on `fuel`). -/
+
+/-- The alignment column of Gen/Message.lean (probed from `marshal.pad`) agrees with `pad[...]` of the general model
+(Gen/Wire.lean's `dbus_types` column) on EVERY character: the same alignment, and 0 exactly where `pad` has no key. -/
+theorem pad_agree : PadAgree Gen.Message.align := gen_padAgree
+
+/-- **HeaderCode's decoder = C01's `Code.unmarshal` on `yyyyuua(yv)` at offset 0**, for every byte string, byte order,
+descriptor list: same header (as the Python values `unmarshal` returns: `HeaderVals.toPy`), same byte count, same exception. -/
+theorem headerCode_eq_general_decode (le : Bool) (fds : Option (List PyVal)) (fuel : Nat) (data : Bytes)
+    (hne : unmarshalHeader Gen.Message.align le data fds ≠ .error .other) :
+    Code.unmarshal (fuel + 4) Gen.Message.headerFormat data 0 le fds =
+      match unmarshalHeader Gen.Message.align le data fds with
+      | .error e => .error e
+      | .ok h => .ok (h.nheader, h.toPy) :=
+  unmarshalHeader_eq_general Gen.Message.align pad_agree gen_alignOK le fds fuel data hne
+
+/-- **HeaderCode's encoder = C01's `Code.marshal` on `yyyyuua(yv)`** and the list `[endian, type, flags, version,
+bodyLength, serial, headers]` at startByte 0 without a descriptor list, for ALL Python values in the seven positions and
+any header list: the same bytes (`_marshal` keeps `[1]`, the chunks), the same exception. -/
+theorem headerCode_eq_general_encode (le : Bool) (fuel : Nat) (v0 v1 v2 v3 v4 v5 : PyVal) (hs : List (PyVal × PyVal))
+    (hne : marshalHeader Gen.Message.align le v0 v1 v2 v3 v4 v5 hs ≠ .error .other) :
+    (match Code.marshal (fuel + 4) Gen.Message.headerFormat (headerArgs v0 v1 v2 v3 v4 v5 hs) 0 le none with
+     | .ok (_, bs, _) => .ok bs
+     | .error e => .error e) = marshalHeader Gen.Message.align le v0 v1 v2 v3 v4 v5 hs :=
+  marshalHeader_eq_general Gen.Message.align pad_agree gen_alignOK le fuel v0 v1 v2 v3 v4 v5 hs hne
+
+/-- The encoder's fragment contains every header list `_marshal` can build: entries `[code, typed value]` with a value of
+class str / ObjectPath / Signature / Byte / UInt32 (`AllIs hs fs`: each denotes a specification field). -/
+theorem headerCode_encode_fragment (le : Bool) (v0 v1 v2 v3 v4 v5 : PyVal) (hs : List (PyVal × PyVal)) (fs : List Field)
+    (hall : AllIs hs fs) : marshalHeader Gen.Message.align le v0 v1 v2 v3 v4 v5 hs ≠ .error .other :=
+  marshalHeader_ne_other Gen.Message.align gen_alignOK le v0 v1 v2 v3 v4 v5 hs fs hall
+
+/-- The hypothesis of `headerCode_eq_general_decode` holds on the header of `MethodCallMessage('/a', 'm')`, and the
+conclusion evaluates: the general decoder returns 42 bytes and `[108, 1, 0, 1, 0, 1, [[1, '/a'], [3, 'm']]]`. -/
+example :
+    let raw : Bytes := [0x6c, 1, 0, 1, 0, 0, 0, 0, 1, 0, 0, 0, 0x1a, 0, 0, 0,
+              1, 1, 0x6f, 0, 2, 0, 0, 0, 0x2f, 0x61, 0, 0, 0, 0, 0, 0,
+              3, 1, 0x73, 0, 1, 0, 0, 0, 0x6d, 0, 0, 0, 0, 0, 0, 0]
+    unmarshalHeader Gen.Message.align true raw none ≠ .error .other ∧
+    (Code.unmarshal 4 Gen.Message.headerFormat raw 0 true none).toOption.map (·.1) = some 42 := by
+  exact ⟨(outside_false_iff _).mp (by decide +kernel), by decide +kernel⟩
+
+/-- OUTSIDE the fragment: a method return whose unknown field 20 holds a variant of type `ai` (array of INT32).  The
+specialised decoder answers `other`; the general decoder decodes it (`[[5, 3], [20, [7]]]`). -/
+example :
+    let raw : Bytes := [0x6c, 2, 0, 1, 0, 0, 0, 0, 7, 0, 0, 0, 0x18, 0, 0, 0,
+              5, 1, 0x75, 0, 3, 0, 0, 0,
+              20, 2, 0x61, 0x69, 0, 0, 0, 0, 4, 0, 0, 0, 7, 0, 0, 0]
+    outside (unmarshalHeader Gen.Message.align true raw none) = true ∧
+    (Code.unmarshal 6 Gen.Message.headerFormat raw 0 true none).toOption.map (·.1) = some 40 := by
+  decide +kernel
+
+/-- The hypothesis of `headerCode_eq_general_encode` on the header list of `MethodCallMessage('/a', 'm')`; outside: a
+header value that is a list (inferred signature `as`). -/
+example :
+    marshalHeader Gen.Message.align true (.int .plain 108) (.int .plain 1) (.int .plain 0) (.int .plain 1) (.int .plain 0)
+      (.int .plain 1) [(.int .plain 1, .str .objectPath "/a".toList), (.int .plain 3, .str .plain "m".toList)] ≠ .error .other ∧
+    outside (marshalHeader Gen.Message.align true (.int .plain 108) (.int .plain 1) (.int .plain 0) (.int .plain 1) (.int .plain 0)
+      (.int .plain 1) [(.int .plain 2, .list [.str .plain "x".toList])]) = true := by
+  exact ⟨(outside_false_iff _).mp (by decide +kernel), by decide +kernel⟩
+
+/-- **Every constructor call**: the message model whose `_marshal` encodes the header with the GENERAL code model
+(`constructG`, Msg/General.lean) returns exactly what the model with the specialised encoder returns - the same message
+or the same exception, and the same counter - for every call, body codec and state (a constructor never stores a value
+outside the encoder's fragment in a header attribute). -/
+theorem construct_general_eq {β : Type} (C : BodyCodec β) (fuel : Nat) (na : Char → Bool) (maxLen : Nat) (st : St)
+    (c : Call β) :
+    constructG Gen.Message.tables C (fuel + 4) na maxLen st c = construct Gen.Message.tables C na maxLen st c :=
+  constructG_eq Gen.Message.tables tables_ok pad_agree C fuel na maxLen st c
+
+/-- **parseMessage**: the model that decodes the header with the GENERAL code model (`parseMessageG`) agrees with the
+specialised one on every byte string whose header stays inside the decoder's fragment ... -/
+theorem parse_general_eq {β : Type} (C : BodyCodec β) (fuel : Nat) (raw : Bytes) (fds : Option (List PyVal))
+    (hne : ∀ b0 rest, raw = b0 :: rest → unmarshalHeader Gen.Message.align (b0 == 108) raw fds ≠ .error .other) :
+    parseMessageG Gen.Message.tables C (fuel + 4) raw fds = parseMessage Gen.Message.tables C raw fds :=
+  parseMessageG_eq Gen.Message.tables tables_ok pad_agree C fuel raw fds hne
+
+/-- ... in particular whenever the specialised model returns a message. -/
+theorem parse_general_of_ok {β : Type} (C : BodyCodec β) (fuel : Nat) (raw : Bytes) (fds : Option (List PyVal))
+    (m : Msg β) (h : parseMessage Gen.Message.tables C raw fds = .ok m) :
+    parseMessageG Gen.Message.tables C (fuel + 4) raw fds = .ok m :=
+  parseMessageG_of_ok Gen.Message.tables tables_ok pad_agree C fuel raw fds m h
+
+/-- What `parseMessageG` is made of: the general decoder on the header signature at offset 0, in the byte order of the
+first byte, read as `parseMessage` reads `hval`. -/
+theorem parse_general_calls {β : Type} (C : BodyCodec β) (fuel : Nat) (raw : Bytes) (fds : Option (List PyVal))
+    (m : Msg β) (h : parseMessageG Gen.Message.tables C fuel raw fds = .ok m) :
+    ∃ b0 rest n vs hv, raw = b0 :: rest ∧
+      Code.unmarshal fuel Gen.Message.headerFormat raw 0 (b0 == 108) fds = .ok (n, vs) ∧ headerOfPy n vs = .ok hv ∧
+      parseAfterHeader Gen.Message.tables C raw (b0 == 108) fds hv = .ok m :=
+  parseMessageG_calls Gen.Message.tables C fuel raw fds m h
+
+/-- **`marshal_wellformed` about the general codec.**  A message constructed by the model that calls the GENERAL encoder:
+its `rawHeader` IS what `Code.marshal` returns for `yyyyuua(yv)` and `[108, type, flags, 1, len(rawBody), serial, headers]`
+(`headers` = `_marshal`'s header list of the object), little endian, startByte 0 - and it is the well-formed message of
+`marshal_wellformed` (all its clauses). -/
+theorem marshal_wellformed_general {β : Type} (C : BodyCodec β) (fuel : Nat) (na : Char → Bool) (maxLen : Nat)
+    (hmax : maxLen ≤ Spec.maxMessage) (st st' : St) (c : Call β) (m : Msg β)
+    (hs : 1 ≤ st.nextSerial) (hsig : SigNoNul c)
+    (h : constructG Gen.Message.tables C (fuel + 4) na maxLen st c = (st', .ok m)) :
+    (∃ headers n f, buildHeaders m.attrs (Gen.Message.tables.entries m.cls (hasFds m)) = .ok headers ∧
+      Code.marshal (fuel + 4) Gen.Message.headerFormat
+        (headerArgs (.int .plain ((108 : Nat) : Nat)) (.int .plain (Gen.Message.messageType m.cls : Nat))
+          (.int .plain (flagsByte m.expectReply m.autoStart : Nat)) (.int .plain ((1 : Nat) : Nat))
+          (.int .plain (m.rawBody.length : Nat)) (.int .plain (m.serial : Nat)) headers)
+        0 true none = .ok (n, m.rawHeader, f)) ∧
+    ∃ sm : SpecMsg, m.toSpec Gen.Message.tables = some sm ∧
+      m.raw = Spec.fixedPart sm (Spec.fieldArray sm).length ++ Spec.fieldArray sm ++ Spec.headerPad sm ++ m.rawBody ∧
+      m.rawHeader = Spec.fixedPart sm (Spec.fieldArray sm).length ++ Spec.fieldArray sm ∧
+      m.rawPadding = Spec.headerPad sm ∧
+      (m.rawHeader ++ m.rawPadding).length % 8 = 0 ∧ m.rawPadding.length < 8 ∧ (∀ b ∈ m.rawPadding, b = 0) ∧
+      m.serial = st.nextSerial ∧ m.serial ≠ 0 ∧ m.serial < 4294967296 ∧
+      (sm.fields.map (·.1)).Nodup ∧ sm.fields.all Field.wf = true ∧
+      (∀ f ∈ sm.fields, Spec.fieldType f.1 = some f.2.ty) ∧
+      (c.pathGiven → ∀ code ∈ Spec.requiredCodes (Gen.Message.tables.messageType m.cls), code ∈ sm.fields.map (·.1)) ∧
+      m.raw.length ≤ maxLen ∧
+      (c.pathGiven → (Spec.fieldArray sm).length ≤ Spec.maxArray → Spec.decodeMsg m.raw = some sm) := by
+  have hcall := constructG_header Gen.Message.tables C (fuel + 4) na maxLen st st' c m h
+  rw [construct_general_eq] at h
+  obtain ⟨sm, p1, p2, p3, p4, _, p6, p7, p8, _, _, _, _, p13, p14, p15, _, _, p18, p19, p20, p21, p22, p23⟩ :=
+    marshal_wellformed C na maxLen hmax st st' c m hs hsig h
+  exact ⟨hcall, sm, p1, p2, p3, p4, p6, p7, p8, p13, p14, p15, p18, p19, p20, p21, p22, p23⟩
+
+/-- **`parse_marshal` about the general codec**: construct with the general header encoder, parse with the general header
+decoder - what txdbus really runs on both sides - and get the message back (`parse_marshal`'s conclusion). -/
+theorem parse_marshal_general {β : Type} (C : BodyCodec β) (fuel fuel' : Nat) (na : Char → Bool) (maxLen : Nat)
+    (st st' : St) (c : Call β) (m : Msg β) (hs : 1 ≤ st.nextSerial) (hsig : SigNoNul c)
+    (h : constructG Gen.Message.tables C (fuel + 4) na maxLen st c = (st', .ok m))
+    (fdsAfter : Option (List PyVal)) (decoded : β)
+    (hC : ∀ sg, m.attrs .signature = .str .plain sg → sg ≠ [] →
+        ∃ bytes fds', C.marshal sg m.body c.oob = .ok (bytes, fds') ∧ C.unmarshal sg bytes true fdsAfter = .ok decoded) :
+    ∃ m' : Msg β, parseMessageG Gen.Message.tables C (fuel' + 4) m.raw fdsAfter = .ok m' ∧
+      m'.cls = m.cls ∧ m'.serial = m.serial ∧ m'.expectReply = m.expectReply ∧ m'.autoStart = m.autoStart ∧
+      (∀ a, m'.attrs a = plain (m.attrs a)) ∧
+      m'.body = (if truthy (m.attrs .signature) then some decoded else none) ∧
+      m'.rawHeader = m.rawHeader ∧ m'.rawPadding = m.rawPadding ∧ m'.rawBody = m.rawBody ∧
+      m'.otherFlags = 0 ∧ m.otherFlags = 0 := by
+  rw [construct_general_eq] at h
+  obtain ⟨m', p1, rest⟩ := parse_marshal C na maxLen st st' c m hs hsig h fdsAfter decoded hC
+  exact ⟨m', parse_general_of_ok C fuel' m.raw fdsAfter m' p1, rest⟩
+
+/-- **`parse_foreign` about the general codec** (basic-typed header fields; containers: next theorem). -/
+theorem parse_foreign_general {β : Type} (C : BodyCodec β) (fuel : Nat) (w : SpecMsg) (hw : w.valid = true)
+    (cls : MsgClass) (hcls : w.mtype = Gen.Message.tables.messageType cls)
+    (known extra : List Field) (hperm : w.fields.Perm (known ++ extra))
+    (hextra : ∀ f ∈ extra, lookupAttr Gen.Message.tables f.1 = none)
+    (hknown : (known.map (fun f => lookupAttr Gen.Message.tables f.1)).Nodup)
+    (fds : Option (List PyVal)) (hfd : ∀ f ∈ w.fields, f.2.ty = .h → fds ≠ none)
+    (decoded : β)
+    (hC : ∀ sg, fieldFor Gen.Message.tables known .signature = some (.text .g sg) → sg ≠ [] →
+        C.unmarshal sg w.body (decide (w.endian = .little)) fds = .ok decoded) :
+    ∃ m' : Msg β, parseMessageG Gen.Message.tables C (fuel + 4) (Spec.encodeMsg w) fds = .ok m' ∧
+      m'.cls = cls ∧ m'.serial = w.serial ∧
+      m'.expectReply = decide (w.flags % 2 = 0) ∧ m'.autoStart = decide (w.flags / 2 % 2 = 0) ∧
+      (∀ a, m'.attrs a = match fieldFor Gen.Message.tables known a with
+                         | some hv => pyOf fds hv
+                         | none => .none) ∧
+      m'.body = (match fieldFor Gen.Message.tables known .signature with
+                 | some (.text _ (_ :: _)) => some decoded
+                 | _ => none) ∧
+      m'.rawBody = w.body ∧ (m'.rawHeader ++ m'.rawPadding ++ m'.rawBody) = Spec.encodeMsg w ∧
+      m'.otherFlags = w.flags / 4 * 4 := by
+  obtain ⟨m', p1, rest⟩ := parse_foreign C w hw cls hcls known extra hperm hextra hknown fds hfd decoded hC
+  exact ⟨m', parse_general_of_ok C fuel _ fds m' p1, rest⟩
+
+/-- **Gap (b) closed: header fields whose variant holds a container** (any well-formed type).  The foreign message is
+laid out by C01/C02's wire specification itself (`Spec.encodeAll` on `yyyyuua(yv)`, either byte order, the generated
+alignment table): header values `[mark, type, flags, 1, len(body), serial, [(code, VARIANT t v), …]]`, padding to 8, body.
+`py f` is C02's meaning of field `f`'s wire value (`Code.fromSpec`).  `parseMessageG` - the general decoder, as txdbus
+runs it - returns the class, serial, flags, every attribute = the decoded value of the known field addressing it (None
+without one) whatever the other fields hold, the three raw parts, and the decoded body.  Step budget: `gDepth fields` =
+3 + the deepest field value. -/
+theorem parse_foreign_containers {β : Type} (C : BodyCodec β) (e : Endian)
+    (cls : MsgClass) (fl se : Nat) (fields : List GField) (hdr body : Bytes) (fds : Code.Fds)
+    (py : GField → PyVal) (fuel : Nat)
+    (henc : Spec.encodeAll Code.genAlign e gHeaderTys
+      (gHeaderVals (Spec.endianByte e).toNat (Gen.Message.tables.messageType cls) fl body.length se fields) 0 = some hdr)
+    (hpy : ∀ f ∈ fields, Code.fromSpec fds f.2.2 f.2.1 = some (py f)) (hfuel : gDepth fields ≤ fuel)
+    (known extra : List (Nat × PyVal))
+    (hperm : (fields.map fun f => (f.1, py f)).Perm (known ++ extra))
+    (hextra : ∀ f ∈ extra, lookupAttr Gen.Message.tables f.1 = none)
+    (hknown : (known.map (fun f => lookupAttr Gen.Message.tables f.1)).Nodup)
+    (decoded : β)
+    (hsig : (known.find? (fun f => lookupAttr Gen.Message.tables f.1 == some Attr.signature)) = none ∨
+      ∃ f sg, known.find? (fun f => lookupAttr Gen.Message.tables f.1 == some Attr.signature) = some f ∧
+        f.2 = .str .plain sg ∧ sg.length ≤ 255 ∧
+        (sg ≠ [] → C.unmarshal sg body (decide (e = .little)) fds = .ok decoded)) :
+    ∃ m' : Msg β, parseMessageG Gen.Message.tables C fuel (hdr ++ zeros (padLen 8 hdr.length) ++ body) fds = .ok m' ∧
+      m'.cls = cls ∧ m'.serial = se ∧
+      m'.expectReply = decide (fl % 2 = 0) ∧ m'.autoStart = decide (fl / 2 % 2 = 0) ∧ m'.otherFlags = fl / 4 * 4 ∧
+      (∀ a, m'.attrs a = match known.find? (fun f => lookupAttr Gen.Message.tables f.1 == some a) with
+                         | some f => f.2
+                         | none => .none) ∧
+      m'.rawHeader = hdr ∧ m'.rawPadding = zeros (padLen 8 hdr.length) ∧ m'.rawBody = body ∧
+      m'.body = (match known.find? (fun f => lookupAttr Gen.Message.tables f.1 == some Attr.signature) with
+                 | some (_, .str _ (_ :: _)) => some decoded
+                 | _ => none) :=
+  parse_foreign_containers_gen Gen.Message.tables tables_ok C e cls fl se fields hdr body fds py fuel henc hpy hfuel
+    known extra hperm hextra hknown decoded hsig
+
+/-- The premises of `parse_foreign_containers` on a big-endian method return with REPLY_SERIAL 3 and an unknown field 20
+holding the array `[7]` of INT32 (type `ai`): the encoding exists (40 bytes), the values decode, the budget is 5. -/
+example :
+    let fields : List GField := [(5, .basic .u, .int 3), (20, .array (.basic .i), .array [.int 7])]
+    (Spec.encodeAll Code.genAlign .big gHeaderTys (gHeaderVals 66 2 0 0 7 fields) 0).map List.length = some 40 ∧
+    (∀ f ∈ fields, ∃ pv, Code.fromSpec none f.2.2 f.2.1 = some pv) ∧ gDepth fields = 5 ∧
+    Code.fromSpec none (.array [.int 7]) (.array (.basic .i)) = some (.list [.int .plain 7]) := by
+  refine ⟨by decide +kernel, ?_, by decide, rfl⟩
+  intro f hf
+  simp only [List.mem_cons, List.not_mem_nil, or_false] at hf
+  rcases hf with rfl | rfl
+  · exact ⟨_, rfl⟩
+  · exact ⟨_, rfl⟩
+
+/-! ### Gap (c): the forwarding call `_marshal(False, rawBody=…)` -/
+
+/-- The general-codec rendering of the forwarding call agrees with the specialised one unless the latter says "outside
+the fragment" (a parsed message may hold a list in a known attribute; the general model then encodes it as txdbus does). -/
+theorem remarshal_general_eq {β : Type} (fuel : Nat) (maxLen : Nat) (m : Msg β) (endian : Nat) (rawBody : Bytes)
+    (hne : remarshal Gen.Message.tables maxLen m endian rawBody ≠ .error .other) :
+    remarshalG Gen.Message.tables (fuel + 4) maxLen m endian rawBody = remarshal Gen.Message.tables maxLen m endian rawBody :=
+  remarshalG_eq Gen.Message.tables tables_ok pad_agree fuel maxLen m endian rawBody hne
+
+/-- **Re-marshal with a raw body, then parse** (what a receiver sees of a message the bus forwarded).  `m` is any
+message object whose header attributes hold what `parseMessage` stores for fields of the specification's types
+(`AttrFwd`: None / a plain str / an int) and ALL of whose non-None attributes are in the `_headerAttrs` table of its class;
+`endian` is `ord('l')` or `ord('B')`; the signature has no NUL.  If `_marshal(False, rawBody=…)` succeeds then the bytes
+are the specification encoding of the message with `m`'s type, serial, flag bits (`flagsWith`: all eight), exactly `m`'s
+non-None attributes as fields with the specification's field types (`Spec.fieldType`: REPLY_SERIAL is UINT32 again, PATH
+an OBJECT_PATH), and the given body, in `endian`'s byte order; and `parseMessage` of them returns the same class, serial,
+flags, `otherFlags`, every attribute, the body bytes and the decoded body. -/
+theorem remarshal_parse {β : Type} (C : BodyCodec β) (maxLen : Nat) (m m2 : Msg β) (endian : Nat) (rawBody : Bytes)
+    (hshape : ∀ a, AttrFwd a (m.attrs a))
+    (hin : ∀ a, m.attrs a ≠ .none → ∃ ent ∈ Gen.Message.tables.headerAttrs m.cls, ent.1 = a)
+    (hend : endian = 108 ∨ endian = 66)
+    (hnul : ∀ s, m.attrs .signature = .str .plain s → s.contains nul = false)
+    (h : remarshal Gen.Message.tables maxLen m endian rawBody = .ok m2)
+    (fds : Option (List PyVal)) (decoded : β)
+    (hC : ∀ sg, m.attrs .signature = .str .plain sg → sg ≠ [] →
+        C.unmarshal sg rawBody (endian == 108) fds = .ok decoded) :
+    ∃ fs, specFieldsOf m.attrs (Gen.Message.tables.headerAttrs m.cls) = some fs ∧
+      m2.raw = Spec.encodeMsg (fwdSpec Gen.Message.tables m endian fs rawBody) ∧
+      fs.map (·.1) = (liveEntries m.attrs (Gen.Message.tables.headerAttrs m.cls)).map (·.2.1) ∧
+      (∀ f ∈ fs, Spec.fieldType f.1 = some f.2.ty) ∧
+      m2.raw.length ≤ maxLen ∧ m2.rawBody = rawBody ∧ m2.attrs = m.attrs ∧ m2.serial = m.serial ∧ m2.cls = m.cls ∧
+      ∃ m3 : Msg β, parseMessage Gen.Message.tables C m2.raw fds = .ok m3 ∧
+        m3.cls = m.cls ∧ m3.serial = m.serial ∧ m3.expectReply = m.expectReply ∧ m3.autoStart = m.autoStart ∧
+        m3.otherFlags = m.otherFlags / 4 * 4 ∧ (∀ a, m3.attrs a = plain (m.attrs a)) ∧
+        m3.body = (if truthy (m.attrs .signature) then some decoded else none) ∧
+        m3.rawHeader = m2.rawHeader ∧ m3.rawPadding = m2.rawPadding ∧ m3.rawBody = rawBody :=
+  remarshal_parse_gen Gen.Message.tables tables_ok C maxLen m m2 endian rawBody hshape hin hend hnul h fds decoded hC
+
+/-- Every class's table lists `sender` (so the attribute the bus sets is always emitted). -/
+theorem sender_in_every_table (cls : MsgClass) : ∃ ent ∈ Gen.Message.tables.headerAttrs cls, ent.1 = Attr.sender := by
+  cases cls <;> decide
+
+/-- **What the bus does** (bus.py:82-89: `msg.sender = uniqueName; msg.endian = raw[0]; msg._marshal(False,
+rawBody=msg.rawBody)`) to a message object `m` as above: the re-marshalled message parses to the same class, serial,
+flags, body and header attributes EXCEPT `sender`, which is the name the bus set. -/
+theorem forward_parse {β : Type} (C : BodyCodec β) (maxLen : Nat) (m m2 : Msg β) (endian : Nat) (sender : List Char)
+    (hshape : ∀ a, AttrFwd a (m.attrs a))
+    (hin : ∀ a, a ≠ .sender → m.attrs a ≠ .none → ∃ ent ∈ Gen.Message.tables.headerAttrs m.cls, ent.1 = a)
+    (hend : endian = 108 ∨ endian = 66)
+    (hnul : ∀ s, m.attrs .signature = .str .plain s → s.contains nul = false)
+    (h : forward Gen.Message.tables maxLen m endian sender = .ok m2)
+    (fds : Option (List PyVal)) (decoded : β)
+    (hC : ∀ sg, m.attrs .signature = .str .plain sg → sg ≠ [] →
+        C.unmarshal sg m.rawBody (endian == 108) fds = .ok decoded) :
+    ∃ m3 : Msg β, parseMessage Gen.Message.tables C m2.raw fds = .ok m3 ∧
+      m3.cls = m.cls ∧ m3.serial = m.serial ∧ m3.expectReply = m.expectReply ∧ m3.autoStart = m.autoStart ∧
+      m3.otherFlags = m.otherFlags / 4 * 4 ∧
+      (∀ a, m3.attrs a = if a = .sender then .str .plain sender else plain (m.attrs a)) ∧
+      m3.body = (if truthy (m.attrs .signature) then some decoded else none) ∧ m3.rawBody = m.rawBody ∧
+      m2.raw.length ≤ maxLen := by
+  unfold forward at h
+  have hshape' : ∀ a, AttrFwd a (({ m with attrs := setAttr m.attrs .sender (.str .plain sender) } : Msg β).attrs a) := by
+    intro a
+    by_cases ha : a = .sender
+    · subst ha; simp only [setAttr, if_true]; exact Or.inr ⟨sender, rfl⟩
+    · simp only [setAttr, ha, if_false]; exact hshape a
+  have hin' : ∀ a, ({ m with attrs := setAttr m.attrs .sender (.str .plain sender) } : Msg β).attrs a ≠ .none →
+      ∃ ent ∈ Gen.Message.tables.headerAttrs m.cls, ent.1 = a := by
+    intro a
+    by_cases ha : a = .sender
+    · subst ha; intro _; exact sender_in_every_table m.cls
+    · simp only [setAttr, ha, if_false]; exact hin a ha
+  have hsigattr : ({ m with attrs := setAttr m.attrs .sender (.str .plain sender) } : Msg β).attrs .signature =
+      m.attrs .signature := by simp [setAttr]
+  obtain ⟨fs, _, _, _, _, q5, _, _, _, _, m3, r1, r2, r3, r4, r5, r6, r7, r8, _, _, r11⟩ :=
+    remarshal_parse C maxLen _ m2 endian m.rawBody hshape' hin' hend (by rw [hsigattr]; exact hnul) h fds decoded
+      (by rw [hsigattr]; exact hC)
+  refine ⟨m3, r1, r2, r3, r4, r5, r6, ?_, ?_, r11, q5⟩
+  · intro a
+    rw [r7 a]
+    by_cases ha : a = .sender
+    · subst ha; simp [setAttr, plain]
+    · simp [setAttr, ha]
+  · rw [r8, hsigattr]
+
+/-- The premises of `forward_parse` / `remarshal_parse` hold (`fwdOKB`, the executable form of `hshape`, `hin`, `hnul`:
+`fwdOKB_sound`) for the object `parseMessage` returns for a foreign big-endian method return with REPLY_SERIAL, DESTINATION
+and flags 5, and the forwarding call succeeds on it. -/
+example :
+    ∃ m : Msg Bytes,
+      parseMessage Gen.Message.tables rawCodec
+        (Spec.encodeMsg ⟨.big, 2, 5, 7, [(5, .num .u 3), (6, .text .s ":1.2".toList)], []⟩) none = .ok m ∧
+      (∀ a, AttrFwd a (m.attrs a)) ∧
+      (∀ a, a ≠ .sender → m.attrs a ≠ .none → ∃ ent ∈ Gen.Message.tables.headerAttrs m.cls, ent.1 = a) ∧
+      (∀ s, m.attrs .signature = .str .plain s → s.contains nul = false) ∧
+      (forward Gen.Message.tables Gen.Message.maxMsgLen m 66 ":1.9".toList).toOption.isSome = true := by
+  have hp : (parseMessage Gen.Message.tables rawCodec
+      (Spec.encodeMsg ⟨.big, 2, 5, 7, [(5, .num .u 3), (6, .text .s ":1.2".toList)], []⟩) none).toOption.map
+        (fun m => (fwdOKB Gen.Message.tables m,
+                   (forward Gen.Message.tables Gen.Message.maxMsgLen m 66 ":1.9".toList).toOption.isSome)) = some (true, true) := by
+    decide +kernel
+  cases hm : parseMessage Gen.Message.tables rawCodec
+      (Spec.encodeMsg ⟨.big, 2, 5, 7, [(5, .num .u 3), (6, .text .s ":1.2".toList)], []⟩) none with
+  | error e => rw [hm] at hp; cases hp
+  | ok m =>
+    rw [hm] at hp
+    simp only [Except.toOption, Option.map_some, Option.some.injEq, Prod.mk.injEq] at hp
+    obtain ⟨h1, h2, h3⟩ := fwdOKB_sound Gen.Message.tables m hp.1
+    exact ⟨m, rfl, h1, h2, h3, hp.2⟩
+
+/-- The text of a str attribute (for closed, decidable statements about attribute values). -/
+def attrText : PyVal → Option (List Char)
+  | .str _ s => some s
+  | _ => none
+
+/-- **Witness of the known finding `forward-drops-unknown-header-fields`** (C14, known_findings.json): a header field
+outside the per-class table is dropped by the forwarding call.  A method return that carries PATH (code 1: not in
+`MethodReturnMessage._headerAttrs`) parses with `path = '/a'`; after `forward` the re-marshalled bytes parse with `path`
+None (and still with REPLY_SERIAL 3 and the sender the bus set).  Likewise UNIX_FDS (observation 3b: `unix_fds` is in no
+class table).  This is why `remarshal_parse` / `forward_parse` ask for `hin`. -/
+theorem forward_drops_field_outside_table :
+    let raw := Spec.encodeMsg ⟨.little, 2, 0, 7, [(5, .num .u 3), (1, .text .o "/a".toList), (9, .num .u 1)], []⟩
+    ((parseMessage Gen.Message.tables rawCodec raw none).toOption.map
+        fun m => (attrText (m.attrs .path), (m.attrs .unixFds).asInt?, (m.attrs .replySerial).asInt?))
+      = some (some "/a".toList, some 1, some 3) ∧
+    (((parseMessage Gen.Message.tables rawCodec raw none).toOption.bind
+        fun m => (forward Gen.Message.tables Gen.Message.maxMsgLen m 108 ":1.9".toList).toOption).bind
+        fun m2 => (parseMessage Gen.Message.tables rawCodec m2.raw none).toOption).map
+        (fun m3 => (isNone (m3.attrs .path), isNone (m3.attrs .unixFds), (m3.attrs .replySerial).asInt?,
+                    attrText (m3.attrs .sender)))
+      = some (true, true, some 3, some ":1.9".toList) := by
+  decide +kernel
+
 /-! ## Witnesses: the code before the repairs violates the property (the replays of F4 and F5) -/
 
 /-- F4 (repaired by 7466ae7): before the repair `parseMessage` ignored the flags byte - a call built with
@@ -744,3 +1111,20 @@ end Txdbus.Msg
 #print axioms Txdbus.Msg.spec_decode_encode
 #print axioms Txdbus.Msg.prefix_parse_ignores_flags
 #print axioms Txdbus.Msg.prefix_empty_interface_constructible
+#print axioms Txdbus.Msg.pad_agree
+#print axioms Txdbus.Msg.headerCode_eq_general_decode
+#print axioms Txdbus.Msg.headerCode_eq_general_encode
+#print axioms Txdbus.Msg.headerCode_encode_fragment
+#print axioms Txdbus.Msg.construct_general_eq
+#print axioms Txdbus.Msg.parse_general_eq
+#print axioms Txdbus.Msg.parse_general_of_ok
+#print axioms Txdbus.Msg.parse_general_calls
+#print axioms Txdbus.Msg.marshal_wellformed_general
+#print axioms Txdbus.Msg.parse_marshal_general
+#print axioms Txdbus.Msg.parse_foreign_general
+#print axioms Txdbus.Msg.parse_foreign_containers
+#print axioms Txdbus.Msg.remarshal_general_eq
+#print axioms Txdbus.Msg.remarshal_parse
+#print axioms Txdbus.Msg.sender_in_every_table
+#print axioms Txdbus.Msg.forward_parse
+#print axioms Txdbus.Msg.forward_drops_field_outside_table
